@@ -21,6 +21,7 @@ ASSUMPTIONS = [
     "true state is read from the harness-held EV objects and the per-period monitor log, not through Interface",
     "the mutating program overwrites every object the public Interface hands out (SessionInfo, InfrastructureInfo, deprecated active_evs copies, get_constraints arrays, returned dicts/lists)",
     "last_applied_pilot_signals is compared from the third period on, for sessions that arrived before the previous period ended (documented behaviour)",
+    "the scheduler program also queries its interface at registration (before any event); 'two_phase' histories queue the later arrivals only after run() has returned once (arrival >= the iteration reached) and call run() again",
 ]
 CHUNK = 30
 
@@ -50,6 +51,12 @@ def space(tier, seed):
             for rc in ([], [1], [0, 5]):
                 for inner in ("max2", "unc"):
                     items.append({"net": "N2", "sessions": ss, "k": k, "recompute": rc, "inner": inner, "sched": INNER[inner], "period": 5})
+    for ss in S.session_subsets(pool, 2, 2):
+        a, b = sorted(ss, key=lambda x: x["a"])
+        if a["d"] < b["a"]:  # the first run() ends at iteration a.d + 1: the later arrival must not lie in the past
+            for k in (None, 1, 2):
+                for inner in ("max2", "unc"):
+                    items.append({"net": "N2", "sessions": ss, "k": k, "recompute": [], "inner": inner, "sched": INNER[inner], "period": 5, "two_phase": b["a"]})
     if thorough:
         pool3 = [sess(st, a, sy, en) for st in ("PS-A", "PS-B", "PS-C") for a in (0, 1) for sy in (1, 3) for en in ("large", "small")]
         for ss in S.session_subsets(pool3, 3, 3):
@@ -179,10 +186,23 @@ def one_run(scn, mutate):
     err = None
     with warnings.catch_warnings(record=True):
         warnings.simplefilter("always")
-        sim, rec, evs, periods = S.build_sim(scn, on_call=on_call, on_return=on_return)
+        # the scheduler program queries its interface at registration already (peek), and - for histories
+        # marked two_phase - the run is split: the later arrivals are only queued after run() returned once
+        sim, rec, evs, periods = S.build_sim(scn, on_call=on_call, on_return=on_return, peek=True)
         holder["evs"], holder["periods"] = evs, periods
+        later = []
+        split = scn.get("two_phase")
+        if split is not None:
+            keep = [(ts, e) for ts, e in sim.event_queue._queue if ts < split]
+            later = [e for ts, e in sim.event_queue._queue if ts >= split]
+            sim.event_queue._queue = []
+            sim.event_queue.add_events([e for _, e in keep])
         try:
             sim.run()
+            if later:
+                rec.interface.active_sessions(), rec.interface.last_actual_charging_rate  # a look between the runs
+                sim.event_queue.add_events(later)
+                sim.run()
         except Exception as exc:
             err = exc
     return sim, rec, evs, periods, log, tpl, err
